@@ -40,7 +40,7 @@ A_CLONE = 'A-clone: Clone::clone of the cache key/value types returns an equal v
 A_F64 = 'A-f64: the floating-point grow test of the Lru is replaced by an arbitrary function of (num_filled, cap) that can answer true only above half full; under C16 this fact is PROVED for the real condition text by the Kani harness k_lru_grow_test_only_above_half (all n, all cap < 32)'
 A_MODEL_ITER = 'A-model-iter: in unit robdd `PartialModel::assignment_iter()` (iterator-adapter chain over two BitSets) is a trusted stub yielding the sequence m.lits(); Literal is the two-field stub of A-lit'
 A_CNF_STUB = 'A-cnf-stub / A-iter-std: in the builder units `Cnf` is an opaque stub exposing its clause list; in compile_cnf the expression `cnf.clauses().iter().any(|x| x.is_empty())` and the sorting prologue (`to_vec` + `sort_by` with a comparator built from max_by closures) are replaced by stubs with the std semantics -- the sort stub returns SOME rearrangement of the clauses (two mutually inverse index maps), so the comparator heuristic is outside the proof and nothing is assumed about the order it produces; Literal is the two-field stub of A-lit'
-A_HEAP = 'A-heap / A-count / R-for-while: in compile_cnf_with_assignments the std BinaryHeap is a trusted stub whose pop returns SOME held element and removes that occurrence (the proof covers every pop order, so the Ord impl of CompiledCNF and count_nodes -- unverified, scratch-based, used only as priority -- carry no proof weight); the inner `for lit in clause.iter()` (break/continue) is desugared to an indexed while over the same Vec with the body text unchanged; PartialModel is the stub of A-model-iter with `get` returning val(label) (the contract proved for the real get in unit cnf)'
+A_HEAP = 'R-fold: in BottomUpPlan::from_dtree the iterator fold is replaced by its definition (loop over the same elements, closure body verbatim) | A-heap / A-count / R-for-while: in compile_cnf_with_assignments the std BinaryHeap is a trusted stub whose pop returns SOME held element and removes that occurrence (the proof covers every pop order, so the Ord impl of CompiledCNF and count_nodes -- unverified, scratch-based, used only as priority -- carry no proof weight); the inner `for lit in clause.iter()` (break/continue) is desugared to an indexed while over the same Vec with the body text unchanged; PartialModel is the stub of A-model-iter with `get` returning val(label) (the contract proved for the real get in unit cnf)'
 A_KANI = 'A-kani: soundness of Kani 0.68 / CBMC 6.11; kani::any() ranges over every bit pattern of the type'
 
 prop('C01',
@@ -173,7 +173,7 @@ prop('C14',
      ])
 
 prop('C05',
-     units=['bottomup', 'builder', 'ite', 'ptr', 'order', 'cache', 'lru', 'robdd'],
+     units=['bottomup', 'builder', 'plan', 'ite', 'ptr', 'order', 'cache', 'lru', 'robdd'],
      assumptions=[A_VERUS, A_EXTRACT, A_PTREQ, A_CELL, A_MODEL_ITER, A_CNF_STUB, A_HEAP, A_TERM, A_CAP, A_HASH, A_CLONE, A_F64],
      replay='compile',
      explanation='compile_logical_expr(e) and compile_plan(p) (trait default methods, generic in the pointer type) denote expr_sem(e) / plan_sem(p), the structural meaning of the enum; '
@@ -181,7 +181,7 @@ prop('C05',
      not_covered=[
          'compile_cnf (BDD builder) is under contract -- empty list: true; an empty clause: false; otherwise the diagram of the conjunction of the clauses, by invariants over the real per-clause and per-literal loops and the proved collapse_clauses -- with four declared rewrites: the empty-clause test and the clause-sorting prologue are the stubs of A-cnf-stub (the comparator heuristic is NOT verified; the proof holds for any rearrangement of the clauses), and two loop headers are written with `.iter()` [+ bounded check `compile`]',
          'compile_cnf_with_assignments is under contract -- the result is ordered, canonical and denotes the formula with the assigned variables overridden by the partial model (cnf_holds(cls, over(env, m)), i.e. the formula conditioned on the assignment), for every heap pop order -- with the rewrites and stubs of A-heap; that it is the SAME POINTER as condition_model(compile_cnf(..)) follows from the canonicity theorem (unit canonthm) given equal functions, and is additionally observed by the bounded check `compile`',
-         'BottomUpPlan::from_dtree (iter().skip(1).fold) [bounded check `compile` only]',
+         'BottomUpPlan::from_dtree is under contract (unit plan) -- the plan means the conjunction of the leaf clauses of the dtree and mentions only their variables -- with ONE declared rewrite (R-fold: `clause.iter().skip(1).fold(first_lit, |acc, i| BODY)` replaced by the definition of fold, an indexed while over clause[1..] with the real closure text as body); that the leaves of DTree::from_cnf are the clauses of the CNF is NOT proved (C14: iterator code) [bounded checks `compile`, `dtree`]',
          'everything SDD (C03 is not applicable): compile_* under the SDD builder and any vtree [bounded check `compile` only: all vtrees over 3 variables, four over 4]',
      ])
 
